@@ -175,11 +175,13 @@ def configured(route, mask, K=1):
         # detached elements use the default renderers
         e = Enum('zz', [EnumItem('q')])
         n = StickyNote('sn', 'txt')
+        from pydbml.renderer.sql.default import DefaultSQLRenderer
+        from pydbml.renderer.dbml.default import DefaultDBMLRenderer
         if as_sql:
-            if e.sql != 'CREATE TYPE "zz" AS ENUM (\n  \'q\'\n);':
+            if e.sql != DefaultSQLRenderer.render(e) or 'zz' not in e.sql:
                 return 'detached enum is not rendered by the default SQL renderer'
         else:
-            if e.dbml != 'Enum "zz" {\n    "q"\n}' or n.dbml != "Note sn {\n    'txt'\n}":
+            if e.dbml != DefaultDBMLRenderer.render(e) or n.dbml != DefaultDBMLRenderer.render(n) or 'zz' not in e.dbml or 'txt' not in n.dbml:
                 return 'detached element is not rendered by the default DBML renderer'
         return ''
 
